@@ -151,6 +151,12 @@ impl W {
         c
     }
 
+    /// wrap a store that was built elsewhere (builder enumeration)
+    pub fn from_store(ctx: Arc<Ctx>, cfg: StoreCfg, st: Arc<RStore>) -> W {
+        ctx.stores.lock().unwrap().push(Arc::downgrade(&st));
+        W { n_red: vec![Mutex::new(cfg.n_red)], n_mw: vec![Mutex::new(cfg.n_mw)], ctx, cfg: vec![cfg], stores: vec![st], subs: Mutex::new(Vec::new()), met: Mutex::new(Vec::new()) }
+    }
+
     pub fn log(&self) -> &Log {
         &self.ctx.log
     }
